@@ -527,12 +527,20 @@ Fixpoint no_space (s : bytes) : bool :=
   | [] => true
   | b :: r => if is_cont b then no_space r else negb (is_whitespace (cp_at s)) && no_space r
   end.
-(** an identifier: non-empty valid UTF-8 without white space that does not start a string (a double quote), a comment
-    (`#`) or a statement end (`;`) and is not a number *)
+(** the first character of a token that the lexer takes as a name or a number: alphabetic, a digit, `.` or `-`;
+    lef21's lexer rejects every other character at the start of a token ("Some other, invalid character"), so names
+    such as `_x`, `$x`, `[x` are outside the subset lef21 reads *)
+Definition tok_start_ok (s : bytes) : bool :=
+  let c := cp_at s in is_alphabetic c || is_digit10 c || (c =? 46) || (c =? 45).
+(** an identifier: non-empty valid UTF-8 without white space that the lexer takes as a Name: it starts with an alphabetic
+    character, or with a digit, `.` or `-` and is not a number *)
 Definition name_ok (s : bytes) : bool :=
   match s with
   | [] => false
-  | b :: _ => negb ((b =? 34) || (b =? 35) || (b =? 59)) && utf8_validb s && no_space s && negb (is_rust_float s)
+  | _ =>
+    let c := cp_at s in
+    (is_alphabetic c || ((is_digit10 c || (c =? 46) || (c =? 45)) && negb (is_rust_float s)))
+    && utf8_validb s && no_space s
   end.
 (** a string literal with its quotes: no quote inside, valid UTF-8 *)
 Definition quoted_ok (s : bytes) : bool :=
@@ -544,11 +552,11 @@ Definition quoted_ok (s : bytes) : bool :=
     end
   | _ => false
   end.
-(** a token kept verbatim that is not a string literal: any non-space text not starting with a double quote, `#` or `;` *)
+(** a token kept verbatim that is not a string literal: a name or a number *)
 Definition plain_tok_ok (s : bytes) : bool :=
   match s with
   | [] => false
-  | b :: _ => negb ((b =? 34) || (b =? 35) || (b =? 59)) && utf8_validb s && no_space s
+  | _ => tok_start_ok s && utf8_validb s && no_space s
   end.
 Definition prop_value_ok (s : bytes) : bool := quoted_ok s || plain_tok_ok s.
 (** numbers: at most 28 digits in all and after the point *)
